@@ -191,6 +191,7 @@ type c03Case struct {
 	Point     string `json:"point,omitempty"`
 	HoldMs    int    `json:"hold_ms,omitempty"`  // hook moment: the goroutine that raised the event stays busy this long after the SIGTERM
 	DelayMs   int    `json:"delay_ms,omitempty"` // the origin delays every answer (seeds stay in flight while the queue is written)
+	IdleSec   int    `json:"idle_sec,omitempty"` // idle moment: the crawler sits idle this long (queue empty) before the stop arrives
 	Broken    bool   `json:"broken,omitempty"`   // the first page's first asset (the page itself when pages have no assets) always answers 503 with a body: its retries are used up before or during the stop
 }
 
@@ -372,6 +373,10 @@ func runC03(t veriflib.TB, c c03Case) (res c03Result) {
 				last, since = n, time.Now()
 			}
 		}
+		if c.IdleSec > 0 {
+			// a crawl that finished long ago and is waiting for new URLs: a stop returns in bounded time however long the wait was
+			waitFor(time.Duration(c.IdleSec)*time.Second, func() bool { return ch.exited() })
+		}
 		sendTerm()
 	case "hook":
 		// the child sends SIGTERM to itself at the hook point; if the point is never reached, stop it when idle
@@ -511,7 +516,14 @@ func TestVerif_C03_Proc(t *testing.T) {
 	{
 		i := veriflib.ShardIndex()
 		d := c03Case{Workers: []int{1, 3}[i%2], Pool: 1 + i%2, Seencheck: true, MaxRetry: i % 2, Seeds: 2 + i%3, Assets: 1 + i%2, Async: i%5 == 4, RateLimit: i%3 == 0, Proxy: i%6 == 5}
-		switch i % 6 {
+		sel := i % 6
+		if veriflib.N("C03_LONG_IDLE", 0, 1) > 0 && i == 7 {
+			// thorough tier only (it costs five minutes of one shard): a stop after a long idle period
+			d.Moment, d.Seeds, d.IdleSec = "idle", 2, 300
+			sel = -1
+		}
+		switch sel {
+		case -1:
 		case 5:
 			// stop while the local queue's producer is about to write a batch of outlinks and seeds are still in flight
 			// (slow site): the writer sees its context cancelled in the middle of its transaction
